@@ -14,6 +14,8 @@
 //   gboost    gboost bias / scale / grads functions over the pool's workers
 //   tune      the real model-tuning driver ml::tune (k-fold splitter, tuner=<id>, own pool of K workers): the warm start handed to every
 //             (trial, fold) callback and the stored result are those of the run with one worker
+//   fit       whole fit() of a linear model (model=<id>, loss mse, k-fold, solver lbfgs with a small budget): folds run on the tuning pool's
+//             workers and submit their batches to the dataset's pool; fitted weights / bias / stored statistics = those of the one-worker run
 //   wlearner  fit of a weak learner (wl=<id>) on the shared dataset over the pool's workers, then predict from T threads
 // config: mode=..;T=<threads>;K=<dataset pool workers>;n=<samples>;batch=<batch size>
 #include "sbv.h"
@@ -23,8 +25,13 @@
 #include <nano/datasource.h>
 #include <nano/function.h>
 #include <nano/gboost/function.h>
+#include <nano/gboost/model.h>
+#include <nano/wlearner/affine.h>
+#include <nano/wlearner/stump.h>
+#include <nano/wlearner/table.h>
 #include <nano/generator/elemwise_identity.h>
 #include <nano/linear/function.h>
+#include <nano/linear.h>
 #include <any>
 #include <nano/loss.h>
 #include <nano/machine/tune.h>
@@ -86,14 +93,20 @@ struct mix_source_t final : datasource_t
         fs.push_back(feature_t{"x0"}.scalar(feature_type::float64));
         fs.push_back(feature_t{"x1"}.scalar(feature_type::float32));
         fs.push_back(feature_t{"c"}.sclass(3));
+        // categorical features with DIFFERENT numbers of classes, the more informative one (2 classes) last: per-worker scratch state
+        // sized by an earlier feature must not leak into a later one
+        fs.push_back(feature_t{"c5"}.sclass(5));
+        fs.push_back(feature_t{"c2"}.sclass(2));
         fs.push_back(feature_t{"y"}.scalar(feature_type::float64));
-        resize(n, fs, 3U);
+        resize(n, fs, 5U);
         for (tensor_size_t s = 0; s < n; ++s)
         {
             set(s, 0, pv(s, 1));
             if (s % 4 != 3) set(s, 1, static_cast<float>(pv(s, 2)));
             if (s % 5 != 4) set(s, 2, static_cast<int32_t>(s % 3));
-            set(s, 3, pv(s, 3) + 0.5 * pv(s, 1));
+            set(s, 3, static_cast<int32_t>(s % 5));
+            set(s, 4, static_cast<int32_t>((s / 2) % 2));
+            set(s, 5, pv(s, 3) + 0.5 * pv(s, 1) + 3.0 * static_cast<double>((s / 2) % 2));
         }
     }
 };
@@ -417,13 +430,83 @@ extern "C" void sbv_harness(const char* cfg)
                 sbv_check(ok, "gboost scale objective over the pool's workers = the single-batch evaluation (1e-9 relative)");
             }
         }
+        else if (sbv_cfg_is("mode", "fit"))
+        {
+            sbv_set_contract("udist", 1);
+            const auto loss = loss_t::all().get(cfgstr("loss", "mse"));
+            indices_t  sorted(n);
+            for (tensor_size_t i = 0; i < n; ++i) sorted(i) = i;
+            auto run = [&](size_t workers, tensor2d_t& weights, tensor1d_t& bias, std::vector<double>& stats)
+            {
+                g_workers = workers;
+                dataset_t dsw(src, workers);
+                dsw.add<scalar_identity_generator_t>();
+                dsw.add<sclass_identity_generator_t>();
+                if (sbv_cfg_is("model", "gboost"))
+                {
+                    // gradient boosting: bias, gradients, weak-learner selection over the dataset pool, scaling, early stopping
+                    auto model = gboost_model_t{};
+                    rwlearners_t protos;
+                    protos.push_back(std::make_unique<affine_wlearner_t>());
+                    protos.push_back(std::make_unique<stump_wlearner_t>());
+                    protos.push_back(std::make_unique<dense_table_wlearner_t>());
+                    model.prototypes(std::move(protos));
+                    model.parameter("gboost::batch")      = batch < 10 ? 10 : batch;
+                    model.parameter("gboost::max_rounds") = 10;
+                    model.parameter("gboost::patience")   = sbv_cfg("patience", 1);
+                    model.parameter("gboost::epsilon")    = 1e-3;
+                    auto params = ml::params_t{};
+                    auto split  = splitter_t::all().get("k-fold");
+                    split->parameter("splitter::folds") = sbv_cfg("folds", 2);
+                    params.splitter(*split);
+                    auto solver = solver_t::all().get("lbfgs");
+                    solver->parameter("solver::max_evals") = sbv_cfg("evals", 12);
+                    params.solver(*solver);
+                    const auto result = model.fit(dsw, sorted, *loss, params);
+                    const auto pred   = model.predict(dsw, sorted);
+                    weights.resize(1, pred.size());
+                    for (tensor_size_t i = 0; i < pred.size(); ++i) weights(0, i) = pred(i);
+                    bias = model.bias();
+                    stats.clear();
+                    for (tensor_size_t t = 0; t < result.trials(); ++t) stats.push_back(result.value(t));
+                    stats.push_back(static_cast<double>(model.wlearners().size()));
+                    return;
+                }
+                auto model = linear_t::all().get(cfgstr("model", "ordinary"));
+                model->parameter("linear::batch") = batch < 10 ? 10 : batch;
+                auto params = ml::params_t{};
+                auto split  = splitter_t::all().get("k-fold");
+                split->parameter("splitter::folds") = sbv_cfg("folds", 2);
+                params.splitter(*split);
+                auto solver = solver_t::all().get("lbfgs");
+                solver->parameter("solver::max_evals") = sbv_cfg("evals", 12);
+                params.solver(*solver);
+                auto tuner = tuner_t::all().get("local-search");
+                tuner->parameter("tuner::max_evals") = 10;
+                params.tuner(*tuner);
+                const auto result = model->fit(dsw, sorted, *loss, params);
+                weights           = model->weights();
+                bias              = model->bias();
+                stats.clear();
+                for (tensor_size_t t = 0; t < result.trials(); ++t) stats.push_back(result.value(t));
+                stats.push_back(static_cast<double>(result.optimum_trial()));
+            };
+            tensor2d_t          w1, wk;
+            tensor1d_t          b1, bk;
+            std::vector<double> s1, sk;
+            run(1U, w1, b1, s1);
+            run(static_cast<size_t>(sbv_cfg("K", 2)), wk, bk, sk);
+            int ok = (s1.size() == sk.size()) ? same(w1, wk) & same(b1, bk) : 0;
+            for (size_t i = 0; ok && i < s1.size(); ++i) ok &= bits(s1[i]) == bits(sk[i]) ? 1 : 0;
+            sbv_check(ok, "fit() with K workers (tuning pool and dataset pool) = fit() with one worker: fitted model (weights / predictions, bias), per-trial values, optimum");
+        }
         else if (sbv_cfg_is("mode", "wlearner"))
         {
             auto wl = wlearner_t::all().get(cfgstr("wl", "stump"));
             sbv_check(wl != nullptr, "weak learner id is registered");
             if (!wl) return;
             tensor4d_t grads(n, 1, 1, 1);
-            for (long i = 0; i < n; ++i) grads(i) = pv(i, 12);
+            for (long i = 0; i < n; ++i) grads(i) = 0.125 * pv(i, 12) + 3.0 * static_cast<double>((i / 2) % 2); // mostly explained by feature c2
             indices_t sorted(n);
             for (tensor_size_t i = 0; i < n; ++i) sorted(i) = i;
             const auto score = wl->fit(ds, sorted, grads);
